@@ -55,6 +55,11 @@ SHORT = {
  "r7_C08": ("RawIter::size_hint: upper bound of the main-table half only", "any iterator on a mid-resize map while old-table elements are still to come"),
  "r7_C10": ("try_grow: overflow returns Err also on the infallible path; grow() treats Err as unreachable_unchecked", "reserve(n) on a non-empty map with len + headroom + n overflowing: UB (abort in debug, silent return in release)"),
  "r7_C12": ("RawEntryBuilderMut::search skips `find` when the MAIN table is empty (new RawTable::is_empty)", "raw_entry_mut lookup of an old-table key while the main table holds nothing: Vacant, then a duplicate"),
+ "r8_C03": ("RawTable::insert_entry delegates to the inner main table's insert_entry (no grow check, no carry)", "mid-resize, keys added through entry()/raw_entry_mut()/get_or_insert*: the old table is never advanced"),
+ "r8_C05": ("same change as r5_C17 (independent agent)", "as r5_C17: write past the reused destination allocation"),
+ "r8_C11": ("same change as r5_C17 (independent agent)", "as r5_C17: clone_from panics / over-full copy"),
+ "r8_C13": ("RawTable::remove_entry returns None at once when the MAIN table is empty", "HashSet::remove/take of a member while the main table holds nothing and leftovers remain"),
+ "r8_C17": ("shrink_to: min_size folded into `need` before the unchecked `+=` of the leftover terms", "mid-resize shrink_to(m), m within L + ceil(L/8) of usize::MAX: debug panics, release wraps and shrinks below the leftovers"),
  "d1": ("revert of fix dbcf4bd", "retain away the old table; shrink_to_fit; insert"),
  "d35": ("revert of fix dc3af20", "replace_entry_with on an old-table element (panic / beyond cursor group)"),
  "d2": ("revert of fix ce142c0", "HashSet<()>: insert; reserve(10); remove"),
